@@ -378,6 +378,11 @@ func newScenario(tr *hx.Trace, kinds map[int]string) *scenario {
 			}
 		}
 	}
+	// keys 1 (stream) and 2 (packet) are the SAME address, as a service that listens on tcp and udp of one port has it (the
+	// manager keeps separate books for the two kinds)
+	if kinds[1] == "s" && kinds[2] == "p" && !v6Keys[1] && !v6Keys[2] && !foreignKeys[1] && !foreignKeys[2] {
+		sc.addrs[2] = sc.addrs[1]
+	}
 	return sc
 }
 
